@@ -3,6 +3,7 @@ package smf
 // C12: playback sends every playable event once, in file order, never early.
 
 import (
+	midi "gitlab.com/gomidi/midi/v2"
 	"gitlab.com/gomidi/midi/v2/drivers"
 	zz "gitlab.com/gomidi/midi/v2/internal/zzverif"
 )
@@ -101,7 +102,22 @@ func VerifC12Play() {
 	}
 	zz.Assume(len(routes) > 0)
 
+	// message type filter (Only): every message matching at least one listed type is played once, the others not at all
 	rd := &TracksReader{smf: s, tracks: sel}
+	matches := true
+	if zz.Param("filter") == 1 {
+		switch zz.Choice("only", 5) {
+		case 1:
+			rd.Only(midi.NoteOnMsg)
+		case 2:
+			rd.Only(midi.NoteOnMsg, midi.ChannelMsg)
+		case 3:
+			rd.Only(midi.ChannelMsg, midi.NoteOnMsg, midi.NoteOnMsg)
+		case 4:
+			rd.Only(midi.NoteOffMsg, midi.ControlChangeMsg)
+			matches = false
+		}
+	}
 	start := zz.ClockNs()
 	err := rd.MultiPlay(routes)
 	zz.Assert(err == nil, "play:ok")
@@ -109,7 +125,7 @@ func VerifC12Play() {
 	// expected number of sends
 	total := 0
 	for t := 0; t < T; t++ {
-		if selected[t] && route[t] >= 0 {
+		if selected[t] && route[t] >= 0 && matches {
 			total += len(want[t])
 		}
 	}
